@@ -118,8 +118,12 @@ impl Writer {
 
 impl Write for Writer {
     fn write(&mut self, buf: &[u8]) -> std::io::Result<usize> {
-        self.builder.input(buf);
-        write_chunk(&mut self.mmap, &mut self.tmpfile, &mut self.written, buf)
+        // Only what actually reached the file may be hashed: a short write is
+        // completed by the caller with the remainder of the buffer, and a
+        // failed one may be retried with the same bytes.
+        let n = write_chunk(&mut self.mmap, &mut self.tmpfile, &mut self.written, buf)?;
+        self.builder.input(&buf[..n]);
+        Ok(n)
     }
 
     fn flush(&mut self) -> std::io::Result<()> {
@@ -319,13 +323,16 @@ impl AsyncWrite for AsyncWriter {
 
                         // Start the operation asynchronously.
                         *state = State::Busy(crate::async_lib::spawn_blocking(|| {
-                            inner.builder.input(&inner.buf);
                             let res = write_chunk(
                                 &mut inner.mmap,
                                 &mut inner.tmpfile,
                                 &mut inner.written,
                                 &inner.buf,
                             );
+                            // Hash only the bytes that reached the file (see Writer::write).
+                            if let Ok(n) = res {
+                                inner.builder.input(&inner.buf[..n]);
+                            }
                             inner.last_op = Some(Operation::Write(res));
                             State::Idle(Some(inner))
                         }));
